@@ -66,6 +66,9 @@ pub mod mecab;
 #[cfg_attr(docsrs, doc(cfg(feature = "train")))]
 pub mod trainer;
 
+#[cfg(vibrato_verif)]
+pub mod verif_hooks;
+
 #[cfg(all(test, feature = "train"))]
 mod test_utils;
 #[cfg(test)]
